@@ -49,7 +49,8 @@ _DETAILS = [None, {'k': 'v'}, {'outer': {'inner': 'deep'}},
             {'deep': {'deeper': {'deepest': {'leaf': 'x'}}}, 'side': 'y'}]
 _CLIENT_CODES = ['Client', 'Client.Custom', 'Client.A.B.C', 'Client.Quota']
 _SERVER_CODES = ['Server', 'Server.Db', 'Server.X.Y']
-_OPEN_CODES = ['Weird', 'Custom.Code', 'client.lower']
+_OPEN_CODES = ['Weird', 'Custom.Code', 'client.lower', 'Clientele.X',
+               'ClientSide', 'Serverless.Y', 'Client-side']
 
 
 class ExcSpec(object):
